@@ -263,13 +263,6 @@ def evaluation_effects(v):
                     ok, detail = True, det2
                 elif ok2 is False:
                     detail = det2
-                elif any(x_["e"] == "asm" for x_ in flat(run_function(v, f, hooks=Hooks())[0])):
-                    # neither the add/remove shapes nor the evaluation apply (vector assembly plus a scalar helper for the
-                    # remainder): whether the const array is restored is not decided -- never a violation on shape alone
-                    from sa.pipeline import AnalysisBroken
-                    raise AnalysisBroken("%s writes through its const parameter '%s' in a form that is neither a recognised add/remove pair (%s) "
-                                         "nor evaluable (%s): whether the array is restored is not decided" % (
-                                             f.name, f.params[pidx]["n"], detail[:100], det2[:100]))
             balanced[(f.usr, pidx)] = (ok, detail, entries)
     if balanced:
         E2 = Effects(v)
